@@ -14,6 +14,7 @@ A *case* is (n, conn, gens, fmt, trace) and is JSON-serialisable as
 {n, conn, gens:[signed strings], fmt, trace}.
 """
 import itertools
+import os
 import numpy as np
 
 from . import core, model as M, binding as B, tables
@@ -119,7 +120,7 @@ def run_units(ctx, judge, units, nontrivial=None):
         if not specs:
             continue
         # interleave so that every worker gets a similar mix, but keep order inside a chunk
-        nchunks = min(len(specs), core.NPROC * 8)
+        nchunks = min(len(specs), core.NPROC * 2)
         chunked = [specs[k::nchunks] for k in range(nchunks)]
         payloads = [(name, ch, [(conns, fmts)] * len(ch)) for ch in chunked]
         results = core.pmap(_work, payloads)
@@ -270,6 +271,13 @@ def standard_units(tier, with_circuit_format=True, sign_mode="full", thin=1):
         units.append(("n=6 %s: graphs in graph form, graph id = %d mod %d" % (conn, k, 7 * step6),
                       [("gens", 6, M.gens_str(B.graph_states_gens(6, gid), 6), [gid % 64]) for gid in range(k, 1 << 15, 7 * step6)],
                       [conn], ["strings"]))
+    full6 = os.environ.get("VERIF_FULL6", "")
+    if full6:
+        # optional, outside both tiers: the COMPLETE six-qubit space for the named configurations (about 1 h each)
+        for conn in full6.split(","):
+            if conn in confs6:
+                units.append(("n=6 %s: ALL 4922775 groups, sigma = index mod 64 [VERIF_FULL6]" % conn,
+                              [("idx", 6, i, [i % 64], 0) for i in range(g6.N)], [conn], ["matrices"]))
     if thin > 1:
         # thin out the large families (deterministically: every thin-th spec); the small complete ones stay
         units = [(label + (" [every %d-th spec]" % thin if len(specs) > 600 else ""),
